@@ -84,7 +84,7 @@ class Target:
             self.ct, self.w, self.h = ALIAS_CT[pn.name], pn.W, pn.H
         else:
             self.ct, self.w, self.h = p[1], int(p[2]), int(p[3])
-        self.len = doc_req(self.ct, self.w, self.h)
+        self.len = doc_req(self.ct, self.w, self.h) + (int(p[5]) if p[0] == 'var' and len(p) > 5 else 0)
         self.colors = COLORS[self.ct]
     def size(self, rot):
         return (self.w, self.h) if rot in ('0', '180') else (self.h, self.w)
@@ -315,6 +315,16 @@ def gen_graphics(tier, rng):
             ys = "-3:-1:1,0:H-1:%d,H:H+3:1,%s" % (1 if h < 64 else 1024, EXT_YS)
             cost = sum(sweep_cost(t, len(t.ys(ys, r)), t.size(r)[0] + 23, 3) for r in ROTS)
             qs.append(Q("setpix_sweep %s all %s z,f,r" % (t.spec, ys), cost, 'var sweep (degenerate / huge)'))
+    # backing storage longer than the part buffer() exposes (VarDisplay::new accepts it): plane offsets must come from
+    # the exposed length and the caller's tail bytes must never change
+    for (w, h) in [(1, 1), (8, 8), (13, 5), (24, 3)]:
+        for ct in ('color', 'tri', 'oct'):
+            for slack in (1, 2, 12, 64):
+                for bwr in ((0, 1) if ct == 'tri' else (0,)):
+                    t = Target("var:%s:%d:%d:%d:%d" % (ct, w, h, bwr, slack))
+                    ys = "-1,0:H-1:1,H"
+                    cost = sum(sweep_cost(t, len(t.ys(ys, r)), t.size(r)[0] + 23, 3) for r in ROTS)
+                    qs.append(Q("setpix_sweep %s all %s z,f,r" % (t.spec, ys), cost, 'var sweep (oversized backing slice)'))
     # explicit PRNG probes (all targets, all i32 magnitudes)
     nrand = 3000 if tier == 'quick' else 40000
     for k in range(nrand):
